@@ -442,8 +442,9 @@ def main(tier, seed):
     rep.assumed_contract("core field functions (magnet_cuboid_Bfield, magnet_cylinder_{axial_B,diametral_H}field, "
                          "magnet_cylinder_segment_Hfield, triangle_Bfield, dipole_Hfield, current_circle_Hfield, "
                          "current_polyline_Hfield) are row-wise functions of their row arguments (C06 obligation); their values are arbitrary")
-    rep.assumed_contract("tetrahedron.point_inside: row-wise predicate symmetric under exchange of vertices 2,3; "
-                         "check_chirality: returns the vertices with 2,3 exchanged on negative-determinant rows")
+    rep.assumed_contract("tetrahedron.point_inside: row-wise predicate symmetric under exchange of vertices 2,3 (assumed); "
+                         "check_chirality: returns the vertices with 2,3 exchanged exactly on negative-determinant rows — PROVED here on the real code "
+                         "(checks/c06_cores.py chirality_contract), so the Tetrahedron wrapper's stub is a checked contract")
     rep.assumed_contract("BHJM_cylinder_segment_internal is verified modularly: its callees BHJM_cylinder_segment and "
                          "BHJM_magnet_cylinder enter by their own (proved here) postconditions")
     rep.assume("TriangularMesh wrapper (BHJM_magnet_trimesh) is covered by C06's loop obligations and the stand-in, not by this check's proof part")
@@ -453,6 +454,9 @@ def main(tier, seed):
     names = list(WRAPPERS)
     tasks = [(nm, (lambda r, nm=nm: wrapper_obligations(r, nm))) for nm in names]
     tasks += [("setters", setter_obligations), ("audit", constant_audit)]
+    from checks import c06_cores
+
+    tasks.append(("core.check_chirality.contract", lambda r: c06_cores.chirality_contract(r)))
     fails = run_parallel(rep, tasks)
     known = {k["id"]: k for k in load_known() if k["property"] == PID and k.get("status") == "known"}
     # known findings: proved on the complement; witness must still fail natively
